@@ -1296,7 +1296,12 @@ func (m Mesh) Translate(v vector3.Float64) Mesh {
 }
 
 func (m Mesh) OctTree() *trees.OctTree {
-	treeDepth := trees.OctreeDepthFromCount(m.PrimitiveCount())
+	count := m.PrimitiveCount()
+	if count < 0 {
+		// a line strip without indices reports -1 primitives
+		count = 0
+	}
+	treeDepth := trees.OctreeDepthFromCount(count)
 	return m.OctTreeWithAttributeAndDepth(PositionAttribute, treeDepth)
 }
 
@@ -1305,7 +1310,12 @@ func (m Mesh) OctTreeDepth(depth int) *trees.OctTree {
 }
 
 func (m Mesh) OctTreeWithAttributeAndDepth(atr string, depth int) *trees.OctTree {
-	primitives := make([]trees.Element, m.PrimitiveCount())
+	count := m.PrimitiveCount()
+	if count < 0 {
+		// a line strip without indices reports -1 primitives: no elements, no tree
+		count = 0
+	}
+	primitives := make([]trees.Element, count)
 
 	m.ScanPrimitives(func(i int, p Primitive) {
 		primitives[i] = p.Scope(atr)
